@@ -194,6 +194,37 @@ theorem C01_crossing_uniform_additive (I : Ice) (β : ℝ) (hk : 0 < I.k) (ha : 
   · rw [zIntUniform_cross_up distInt I z0 z1 zu β h0 h1, dist_deep_eq_integral I β z0 zu,
       dist_eq_integral I β hk ha hβ h1 hb]
 
+/-- all three integrals of a segment that crosses `z_uniform` upward: uniform-index integral below it plus the
+exact line integral above it (the deep endpoint case of direct and indirect paths) -/
+theorem C01_crossing_integrals (I : Ice) (β : ℝ) (hk : 0 < I.k) (ha : 0 < I.a)
+    (hβ : betaTolerance < β) (z0 z1 zu : ℝ) (h0 : z0 < zu) (h1 : zu ≤ z1) (hb : β ≤ nzT I z1) :
+    zIntUniform distInt I z0 z1 zu β
+      = (∫ _z in z0..zu, β / Real.sqrt (alphaT I β))
+        + ∫ z in zu..z1, Real.tan (Real.arcsin (β / nzT I z)) ∧
+    zIntUniform pathInt I z0 z1 zu β
+      = (∫ _z in z0..zu, I.n0 / Real.sqrt (alphaT I β))
+        + ∫ z in zu..z1, 1 / Real.cos (Real.arcsin (β / nzT I z)) ∧
+    zIntUniform tofInt I z0 z1 zu β
+      = (∫ z in z0..zu, I.n0 * nzT I z / (Real.sqrt (alphaT I β) * cLight))
+        + ∫ z in zu..z1, nzT I z / cLight / Real.cos (Real.arcsin (β / nzT I z)) := by
+  refine ⟨?_, ?_, ?_⟩
+  · rw [zIntUniform_cross_up distInt I z0 z1 zu β h0 h1, dist_deep_eq_integral I β z0 zu,
+      dist_eq_integral I β hk ha hβ h1 hb]
+  · rw [zIntUniform_cross_up pathInt I z0 z1 zu β h0 h1, path_deep_eq_integral I β z0 zu,
+      path_eq_integral I β hk ha hβ h1 hb]
+  · rw [zIntUniform_cross_up tofInt I z0 z1 zu β h0 h1, tof_deep_eq_integral I β (ne_of_gt ha) z0 zu,
+      tof_eq_integral I β hk ha hβ h1 hb]
+
+/-- NEGATION of exactness below `z_uniform` (known finding K26): for every ray with `β > 0` that exists on a
+deep segment `z0 < z1` the radial distance the code computes there (uniform index `n0`) is strictly smaller
+than the true `∫ tan θ` of the ice — the returned launch angle is therefore never exactly that of a ray
+through the receiver; the defect grows without bound for nearly horizontal rays (`β → n(z1)`) -/
+theorem C01_deep_branch_not_exact (I : Ice) (β : ℝ) (hk : 0 < I.k) (ha : 0 < I.a) (hβ : 0 < β)
+    (z0 z1 zu : ℝ) (h01 : z0 < z1) (h1u : z1 < zu) (h1 : β < nzT I z1) :
+    zIntUniform distInt I z0 z1 zu β < ∫ z in z0..z1, Real.tan (Real.arcsin (β / nzT I z)) := by
+  rw [zIntUniform_deep distInt I z0 z1 zu β (lt_trans h01 h1u) h1u]
+  exact deep_dist_lt_true I β hk ha hβ h01 h1
+
 /-- An indirect path above `z_uniform`: its radial distance / length / time of flight (`z_integral`
 over `z_from → z_turn` and `z_to → z_turn`) are the line integrals along both legs *up to the turning
 depth itself* (improper integrals when the ray turns over refractively, `n(z_turn) = β`). -/
@@ -509,3 +540,12 @@ example : 0 < antarctic.index (-100) ∧
   have h2 := antarctic_nz_ge (-100) (by norm_num)
   refine ⟨by rw [i2]; linarith, ?_⟩
   rw [Real.sin_zero, mul_zero, abs_zero, i2]; linarith
+
+/-- witness for `C01_deep_branch_not_exact` / `C01_crossing_integrals`: Antarctic ice, `β = 1`, the deep
+segment [−1000, −900] below `z_u = −765` resp. the crossing segment [−1000, −100] -/
+example : 0 < antarctic.k ∧ 0 < antarctic.a ∧ (0 : ℝ) < 1 ∧ (-1000 : ℝ) < -900 ∧ (-900 : ℝ) < -765 ∧
+    (1 : ℝ) < nzT antarctic (-900) ∧ (-1000 : ℝ) < -765 ∧ (-765 : ℝ) ≤ -100 ∧ (1 : ℝ) ≤ nzT antarctic (-100) := by
+  have h1 := antarctic_nz_ge (-900) (by norm_num)
+  have h2 := antarctic_nz_ge (-100) (by norm_num)
+  refine ⟨by simp only [antarctic]; norm_num, by simp only [antarctic]; norm_num, by norm_num, by norm_num,
+    by norm_num, by linarith, by norm_num, by norm_num, by linarith⟩
